@@ -786,12 +786,15 @@ pub fn run(ctx: &ChildCtx, sh: &mut Shard) {
                 println!("reference: {:?} total {} exact {}; engine: {:?} remaining {:?}", ro.outcome, ro.total, ro.exact, eo.outcome, eo.remaining);
             }
         }
-        let mut seen: Vec<&'static str> = vec![];
+        // one report per (kind, root-cause class) and case: a finding outside a known class is never
+        // hidden behind a class finding of the same kind
+        let mut seen: Vec<(&'static str, Option<String>)> = vec![];
         for f in &j.findings {
-            if seen.contains(&f.kind) {
+            let key = (f.kind, f.class.clone());
+            if seen.contains(&key) {
                 continue;
             }
-            seen.push(f.kind);
+            seen.push(key);
             if let Some(cl) = &f.class {
                 sh.hit(&format!("class.{}", cl));
                 if classes_reported.contains(cl) {
